@@ -131,7 +131,10 @@ def main():
             for v in s.get("violations") or []:
                 v["harness"] = hp
                 direct.append(v)
-            if mok:
+            if mok and pid == "C20":
+                # the two tables must BEHAVE alike under one engine and one action semantics: compare model(peg) with model(go)
+                mism, n = vlib.compare_pairs(rd)
+            elif mok:
                 mism, n = vlib.compare(rd)
                 model_lines += n
                 for m in mism:
